@@ -513,6 +513,27 @@ def dp_tree(F, fn):
             if ln is not None:
                 table[(ln, rk)] = None
             continue
+        if ln is not None and rk is None:
+            # table form: the path is selected by len only and returns TABLE_len[code(rank)][remaining]; the 13 rows of
+            # that length are the rows of the constant (evaluated by rustc), indexed by the rank's u8 code
+            t = P.strip(dtree.PathProv(fn, p).local(0))
+            ok_t = t[0] == "index" and P.strip(t[1])[0] == "index" and P.strip(P.strip(t[1])[1])[0] == "named"
+            if ok_t:
+                inner = P.strip(t[1])
+                cname = P.strip(inner[1])[1]
+                cv = F.const_value(cname)
+                if P.strip(P.unwiden(t[2])) != ("param", 3):
+                    raise U(rule, f"row index is {P.show(t[2])}, not the remaining-cards argument", fn)
+                if not is_code_of(F, inner[2], lambda a: P.strip(a) == ("param", 2), RANK):
+                    raise U(rule, f"table row is selected by {P.show(inner[2])[:80]}, not by the rank code", fn)
+                if not cv or "array" not in cv or not all(isinstance(r, list) for r in cv["array"]):
+                    raise U(rule, f"row table {cname} not evaluated as an array of rows", fn)
+                codes, _cf = code_table(F, RANK)
+                for rname, code in codes.items():
+                    if code >= len(cv["array"]):
+                        raise U(rule, f"rank code {code} of {rname} is outside row table {cname}", fn)
+                    table[(ln, rname)] = ("rows", f"{cname}[{code}]", cv["array"][code])
+                continue
         if ln is None or rk is None:
             raise U(rule, "a returning path is not selected by (len, rank)", fn)
         t = dtree.last_assign(fn, p, 0, pr)
@@ -780,6 +801,9 @@ def check_rainbow_table(ctx, F, table_path, model, dp_table, codes, anchor):
     for (ln, rk), rp in dp_table.items():
         if rp is None:
             continue
+        if isinstance(rp, tuple) and rp[0] == "rows":
+            rows[(ln, rk)] = (rp[1], rp[2])
+            continue
         v = F.const_value(rp)
         if not v or "array" not in v:
             raise U(rule, f"row {rp} not evaluated")
@@ -943,7 +967,8 @@ def run(ctx):
         "checked by argument provenance")
     ctx.exhaustive = True
     F = ctx.facts("lib")
-    anchor = F.impl_fn(f"std::convert::From<[{CARD}; 7]>", MADE_HAND, "from")
+    # (the by-value conversion may only forward to a by-reference impl that does the work)
+    anchor = I.resolve_forwarding(F, F.impl_fn(f"std::convert::From<[{CARD}; 7]>", MADE_HAND, "from"))
     ctx.rule("C01.extract", "tables, hash functions, dispatch tree and walk order found from the From<[Card;7]> anchor")
     arms, finder_path = extract_from(F, anchor)
     finder = F.fn(finder_path)
